@@ -6,7 +6,7 @@ from scale_common import ScaleSpec
 SPECS = {"deque": (DequeSpec(iterators=False), "harness", "runner"), "deque-iter": (DequeSpec(iterators=True), "harness", "runner"),
          "scale": (ScaleSpec(['deque-gc']), "harness", "runner")}
 
-PROP_FILES = ["C04", "TranslatedDeque"]
+PROP_FILES = ["C04", "TranslatedDeque", "TranslatedDequeRun"]
 
 
 def run(ctx):
